@@ -1,0 +1,33 @@
+//go:build verif
+
+// Package verifapi re-exports the few internal/ entry points an external verification
+// harness needs (Go forbids importing internal/ packages from another module).
+// Built only with the "verif" tag.
+package verifapi
+
+import (
+	"context"
+	"crypto"
+
+	"github.com/sassoftware/relic/v8/config"
+	"github.com/sassoftware/relic/v8/internal/httperror"
+	"github.com/sassoftware/relic/v8/internal/signinit"
+	"github.com/sassoftware/relic/v8/lib/audit"
+	"github.com/sassoftware/relic/v8/lib/certloader"
+	"github.com/sassoftware/relic/v8/signers"
+	"github.com/sassoftware/relic/v8/token"
+)
+
+func SignInit(ctx context.Context, mod *signers.Signer, tok token.Token, keyName string, hash crypto.Hash, flags *signers.FlagValues) (*certloader.Certificate, *signers.SignOpts, error) {
+	return signinit.Init(ctx, mod, tok, keyName, hash, flags)
+}
+
+func InitKey(ctx context.Context, tok token.Token, keyName string) (*certloader.Certificate, *config.KeyConfig, error) {
+	return signinit.InitKey(ctx, tok, keyName)
+}
+
+func PublishAudit(info *audit.Info) error { return signinit.PublishAudit(info) }
+
+func ResetTimestamper() { signinit.ResetTimestamperForVerif() }
+
+func Temporary(err error) bool { return httperror.Temporary(err) }
